@@ -63,6 +63,15 @@ def outputs_file(job):
             out["write_pdb"] = dig(parser_v2.write_pdb(atoms))
         except Exception as e:  # noqa: BLE001
             out["write_pdb"] = "raises:" + type(e).__name__
+        # the fitting path (splitter / unifier): chain ids made two characters long, then fit_to_pdb + write_pdb
+        if not job["path"].endswith(".pdb") and "auth_asym_id" in atoms.columns:
+            try:
+                a2 = atoms.copy()
+                a2["auth_asym_id"] = (a2["auth_asym_id"].astype(str) + "x").astype("category")
+                a2.attrs["format"] = atoms.attrs.get("format")
+                out["fit_to_pdb+write_pdb"] = dig(parser_v2.write_pdb(parser_v2.fit_to_pdb(a2)))
+            except Exception as e:  # noqa: BLE001
+                out["fit_to_pdb+write_pdb"] = "raises:" + type(e).__name__
     except Exception as e:  # noqa: BLE001
         out["parser_v2"] = "raises:" + type(e).__name__
     return out
